@@ -82,7 +82,19 @@ def gen(rng, i, cancels=True):
             if rng.random() < 0.25:
                 jb["cancel_in_policy"] = rng.choice([1, 2])
         jobs.append(jb)
+    if rng.random() < 0.25 and pol["kind"] == "exc":
+        # several submissions ending their attempts at the same instant with different back-offs (per-call policies):
+        # a wake-up lost while the submit thread goes to sleep for the longer one delays the shorter one
+        n = rng.choice([2, 3])
+        jobs = []
+        for j in range(n):
+            jobs.append({"script": ["E", "E", "V"], "S": 0, "C": False,
+                         "percall": {"kind": "exc", "max_attempts": 3, "sleep": [100, 250, 400][j % 3], "exponent": 1,
+                                     "max_sleep": 120000}})
+        rng.shuffle(jobs)
     fl = ["manual", "pool", "manual", "sync"][i % 4]
+    if any(jb.get("percall") for jb in jobs) and fl == "sync":
+        fl = "manual"
     return {"flavour": fl, "policy": pol, "jobs": jobs, "dur": 300, "horizon": 4000, "workers": rng.choice([1, 2, 3])}
 
 
